@@ -80,7 +80,14 @@ def execute(sc):
             with sim.patched(), cmdsim.permuted_listings(s.path, sc["listing_seed"] * 31 + i, counters):
                 random.seed(12345)
                 torch.manual_seed(12345)
-                out = pl.run(sc, s, cfg, res)
+                try:
+                    out = pl.run(sc, s, cfg, res)
+                except HarnessError as e:
+                    if "event budget" not in str(e):
+                        raise
+                    # bounded liveness: a pooled command must finish within c*T + c0 scheduler events
+                    res.violate("liveness.pool", f"{sc['pipeline']}: with workers={w} chunk={c} the command did not terminate within {sim.event_budget} pool events", pipeline=sc["pipeline"])
+                    return res
             st = sim.stats
             res.steps += st.events
             res.bump("pool_events", st.events)
